@@ -192,7 +192,7 @@ func (s *Service) generateValidatorRegistrationsForAccount(ctx context.Context,
 
 	consensusRegistrations := make([]*consensusapi.VersionedSignedValidatorRegistration, 0, len(proposerConfig.Relays))
 
-	for index, relay := range proposerConfig.Relays {
+	for _, relay := range proposerConfig.Relays {
 		relayRegistration, consensusRegistration, err := s.generateValidatorRegistrationForRelay(ctx, account, pubkey, relay)
 		if err != nil {
 			// Recognise the error but continue, to submit as many validator registrations as possible.
@@ -211,8 +211,9 @@ func (s *Service) generateValidatorRegistrationsForAccount(ctx context.Context,
 		}
 		relayRegistrations[relay.Address] = append(relayRegistrations[relay.Address], relayRegistration)
 		// We only add the first relay's consensus registration, as they are used purely to alert
-		// the beacon node that the validator is expecting to use relays.
-		if index == 0 {
+		// the beacon node that the validator is expecting to use relays.  (The first relay for which
+		// a registration could be generated, that is.)
+		if len(consensusRegistrations) == 0 {
 			consensusRegistrations = append(consensusRegistrations, consensusRegistration)
 		}
 	}
